@@ -412,6 +412,22 @@ func provesLE(fn *ssa.Function, at *ssa.BasicBlock, guards []Atom, e ssa.Value, 
 			if sameValue(gx, i, 0) && op == token.LSS && isQuot(gy) {
 				return true
 			}
+			// product lemma: i < N and len(s) == N*B (or >=): (i+1)*B <= N*B <= len(s)
+			if sameValue(gx, i, 0) && op == token.LSS {
+				N := gy
+				for _, g2 := range guards {
+					lx, ly, op2 := g2.X, g2.Y, g2.Op
+					if isLen(stripConv(ly)) {
+						lx, ly, op2 = ly, lx, swapOp(op2)
+					}
+					if !isLen(stripConv(lx)) || (op2 != token.EQL && op2 != token.GEQ) {
+						continue
+					}
+					if n2, b2, ok := mulConst(ly); ok && b2 == B && sameValue(n2, N, 0) {
+						return true
+					}
+				}
+			}
 		}
 	}
 	// ceiling-division lemma: e = B*(i-k), k >= 1, under a dominating i <= E with
